@@ -34,6 +34,7 @@ structure UserTy where
   tstr : Str           -- %T
   style : Nat          -- wrappers: 0 = "msg: cause", 1 = full message, 2 = no message
   safe : List Str      -- SafeDetails() (empty when not implemented)
+  expose : Nat         -- wrappers: how the cause is exposed: 0 = Unwrap() only, 1 = Cause() only, 2 = both
   deriving DecidableEq, Repr, Inhabited
 
 inductive LeafKind
